@@ -665,7 +665,8 @@ func (g *Gen) lazyCell(ptr Val) Val {
 	}
 	et := pt.Elem()
 	if _, isStruct := et.Underlying().(*types.Struct); isStruct {
-		return ptr
+		// the address is what contracts need (addrOf); the value itself is not readable as a cell
+		return Val{Loc: &Loc{Kind: "structptr", Base: ptr.S, T: et}, Sort: g.m.sortOf(et), G: et, Lazy: true}
 	}
 	if _, isArr := et.Underlying().(*types.Array); isArr {
 		return ptr
